@@ -429,6 +429,14 @@ def check_stats_table(prog, rep, m):
     for n in f.own_nodes():
         if isinstance(n, ast.Assign) and isinstance(n.value, ast.Dict):
             table = n.value
+    tname_mod = None
+    if table is None:
+        # the table may be a module-level constant the function subscripts
+        for n in f.own_nodes():
+            if isinstance(n, ast.Subscript) and isinstance(n.value, ast.Name) and table is None:
+                r_ = prog.resolve_name(f, m, n.value.id)
+                if isinstance(r_, tuple) and r_ and r_[0] == 'modvalue' and isinstance(r_[3], ast.Dict):
+                    table, tname_mod = r_[3], n.value.id
     if table is None:
         rep.add('F4', f, entry, 'statistic table', f.node.lineno, None, 'dict literal not found')
         return
@@ -457,7 +465,7 @@ def check_stats_table(prog, rep, m):
                 'statistic %r must be the NaN-ignoring NumPy reducer of the same name over the window (range = max - min)' % key)
     # each statistic applied through apply() with the same kernel and raster
     # apply(<raster>, <kernel>, func=<table>[<the statistic of the enclosing loop over the requested names>])
-    tname = next((n.targets[0].id for n in f.own_nodes() if isinstance(n, ast.Assign) and n.value is table and isinstance(n.targets[0], ast.Name)), None)
+    tname = next((n.targets[0].id for n in f.own_nodes() if isinstance(n, ast.Assign) and n.value is table and isinstance(n.targets[0], ast.Name)), None) or tname_mod
     ok = False
     apf = m.funcs.get('apply')
     # the loop over the requested names: a for statement or a comprehension
